@@ -38,6 +38,12 @@ CHECKS = {
     text="Generated address texts (structured IPv6 forms, scopes, mutations, boundary IPv4), random native structures with every buffer length 0..size+8 in both directions, "
          "and all 65536 ports: creation success, every getter, any/loopback, native packing and both round trips are compared with the platform view; ASan catches accesses beyond short buffers.",
     note="Platform libc is the reference by definition of the property; far out-of-bounds accesses are outside ASan's red zones."),
+ "C16": dict(cat="exploration", ref="§3 C16",
+    technique="runtime robustness oracle under ASan/UBSan on mutated/random/libFuzzer inputs + grammar-generated files compared with their generating model",
+    text="Robustness: generated, hand-crafted, mutated and random byte files (thorough: libFuzzer with coverage feedback) are parsed under ASan+UBSan and the object-consistency oracle "
+         "(every listed section has a key, every listed key exists with a value, defaults for missing keys, termination). Grammar: files derived from the documented format together with the model they were "
+         "derived from; sections, keys, strings and int/double/boolean/list getters must equal the model.",
+    note="Generator stays inside what pinifile.h documents (listed in evidence assumptions); double getter compared with 1e-12 relative tolerance."),
 }
 
 NOT_YET = {}
